@@ -12,9 +12,10 @@ class TeqRegisterShiftedRegister(Opcode):
         self.shift_t = shift_t
 
     def execute(self, processor):
-        shift_n = lower_chunk(processor.registers.get(self.s), 8)
-        shifted, carry = shift_c(processor.registers.get(self.m), 32, self.shift_t, shift_n, processor.registers.cpsr.c)
-        result = processor.registers.get(self.n) ^ shifted
-        processor.registers.cpsr.n = bit_at(result, 31)
-        processor.registers.cpsr.z = 0 if result else 1
-        processor.registers.cpsr.c = carry
+        if processor.condition_passed():
+            shift_n = lower_chunk(processor.registers.get(self.s), 8)
+            shifted, carry = shift_c(processor.registers.get(self.m), 32, self.shift_t, shift_n, processor.registers.cpsr.c)
+            result = processor.registers.get(self.n) ^ shifted
+            processor.registers.cpsr.n = bit_at(result, 31)
+            processor.registers.cpsr.z = 0 if result else 1
+            processor.registers.cpsr.c = carry
